@@ -4,6 +4,10 @@ import (
 	"context"
 	"encoding/json"
 	"math/rand"
+	"sync"
+	"time"
+
+	"github.com/gotd/td/bin"
 
 	"github.com/gotd/td/crypto"
 	"github.com/gotd/td/mtproto"
@@ -65,6 +69,44 @@ func (r *racingStorage) LoadSession(ctx context.Context) ([]byte, error) {
 	return r.StorageMemory.LoadSession(ctx)
 }
 
+// fakeProto is a scripted protocol connection for a manager connection: Run calls the init function and stays
+// up; the initConnection(help.getConfig) call is answered with the DC's config once cfgGate is closed.
+type fakeProto struct {
+	dc      int
+	cfgGate chan struct{}
+	inited  chan struct{}
+	askOnce sync.Once
+	askCh   chan struct{}
+}
+
+func (f *fakeProto) asked() <-chan struct{} { return f.askCh }
+
+func (f *fakeProto) Invoke(ctx context.Context, input bin.Encoder, output bin.Decoder) error {
+	f.askOnce.Do(func() { close(f.askCh) })
+	select {
+	case <-f.cfgGate:
+	case <-ctx.Done():
+		return ctx.Err()
+	}
+	cfg := &tg.Config{ThisDC: f.dc, DCOptions: []tg.DCOption{{ID: f.dc, IPAddress: "10.0.0.1", Port: 443}}, DCTxtDomainName: "x", MeURLPrefix: "m"}
+	b := &bin.Buffer{}
+	if err := cfg.Encode(b); err != nil {
+		return err
+	}
+	return output.Decode(b)
+}
+
+func (f *fakeProto) Run(ctx context.Context, fn func(ctx context.Context) error) error {
+	err := fn(ctx)
+	close(f.inited) // init (config, setup, flush of buffered notifications) is over
+	if err != nil {
+		return err
+	}
+	<-ctx.Done()
+	return ctx.Err()
+}
+func (f *fakeProto) Ping(ctx context.Context) error { return nil }
+
 func init() {
 	modules["sesssave"] = func(c tr.M, rng *rand.Rand) tr.M {
 		in := tr.Map(c["in"])
@@ -99,6 +141,87 @@ func init() {
 				out = append(out, readSaved(st))
 			}
 			return tr.M{"saved": out}
+		case "manager":
+			// The notification travels through the real manager connection (buffering until initConnection's config
+			// is known, setup callback, flush) over a scripted protocol connection.  phase = when it arrives:
+			//   pre_config: before the help.getConfig answer; in_setup: after it, while the setup callback runs;
+			//   post_init: after the connection became ready.
+			dc := tr.Int(in["dc"])
+			phase := tr.Str(in["phase"])
+			fp := &fakeProto{dc: dc, cfgGate: make(chan struct{}), inited: make(chan struct{}), askCh: make(chan struct{})}
+			setupGate := make(chan struct{})
+			inSetup := make(chan struct{})
+			var setup func(ctx context.Context, invoker tg.Invoker) error
+			if tr.Bool(in["setup"]) {
+				setup = func(ctx context.Context, invoker tg.Invoker) error {
+					close(inSetup)
+					select {
+					case <-setupGate:
+					case <-ctx.Done():
+					}
+					return nil
+				}
+			}
+			// a primary session of DC 2 exists already (key 9)
+			if err := cl.VerifOnSession(tg.Config{ThisDC: 2}, mtproto.Session{ID: 1, Key: keyN(9), Salt: 109}); err != nil {
+				return tr.M{"err": err.Error()}
+			}
+			conn := cl.VerifManagerConn(fp, dc, tr.Str(in["conn"]) == "cdn", setup)
+			ctx, cancel := context.WithCancel(context.Background())
+			defer cancel()
+			runDone := make(chan error, 1)
+			go func() { runDone <- conn.Run(ctx) }()
+			note := mtproto.Session{ID: rng.Int63(), Key: keyN(tr.Int(in["key"])), Salt: int64(100 + tr.Int(in["key"]))}
+			deliver := func() error { return conn.OnSession(note) }
+			var derr error
+			timeout := time.After(10 * time.Second)
+			step := func(ch <-chan struct{}) bool {
+				select {
+				case <-ch:
+					return true
+				case <-timeout:
+					return false
+				}
+			}
+			isCDN := tr.Str(in["conn"]) == "cdn"
+			switch phase {
+			case "pre_config":
+				if !isCDN && !step(fp.asked()) {
+					return tr.M{"err": "init never asked for the config"}
+				}
+				derr = deliver()
+				close(fp.cfgGate)
+				close(setupGate)
+			case "in_setup":
+				close(fp.cfgGate)
+				if setup != nil {
+					if !step(inSetup) {
+						return tr.M{"err": "setup callback never ran"}
+					}
+				} else if !step(conn.Ready()) {
+					return tr.M{"err": "never ready"}
+				}
+				derr = deliver()
+				close(setupGate)
+			case "post_init":
+				close(fp.cfgGate)
+				close(setupGate)
+				if !step(conn.Ready()) {
+					return tr.M{"err": "never ready"}
+				}
+				derr = deliver()
+			}
+			if !step(fp.inited) {
+				return tr.M{"err": "init never returned"}
+			}
+			if derr != nil {
+				return tr.M{"err": derr.Error()}
+			}
+			// buffered notifications are flushed inside init, later ones inside OnSession: the storage is settled now
+			res := tr.M{"saved": readSaved(st)}
+			cancel()
+			<-runDone
+			return res
 		case "restore":
 			k, other := keyN(1), keyN(2)
 			d := session.Data{DC: 2, Addr: "1.2.3.4:443", AuthKey: append([]byte(nil), k.Value[:]...), AuthKeyID: append([]byte(nil), k.ID[:]...), Salt: 55}
